@@ -21,7 +21,7 @@ def check(run):
     # design check of the rule by which a played block removes pending transactions (processUnconfirmTxs, transcribed):
     # it leaves exactly what can be re-applied on the new chain state (PlayRuleExact)
     run.tlc_mc("XState.tla", "MC_XState_play_quick.cfg" if quick else "MC_XState_play.cfg", timeout=3000)
-    conflict = '{"t1", "t2", "t3", "t6", "t4", "w1", "w2", "w3", "w4", "w5", "w6", "c1", "p11", "x1", "x2", "p1", "p2", "p3", "p4", "p5", "p7", "p6", "p9", "p10"}'
+    conflict = '{"t1", "t2", "t3", "t6", "t4", "t5", "w1", "w2", "w3", "w4", "w5", "w6", "c1", "p11", "x1", "x2", "p1", "p2", "p3", "p4", "p5", "p7", "p6", "p9", "p10"}'
     plans = [dict(num=120, ops=20, txs=conflict, driver_args=["-direct", "35"])] if quick else \
             [dict(num=1500, ops=20, txs=conflict, driver_args=["-direct", "35"]), dict(num=500, ops=30, maxb=9)]
     # pools of readers and writers of one key, so that a played block often supersedes a version a pending transaction read
@@ -37,6 +37,15 @@ def check(run):
         directed.append([S("p1"), {"op": "mkblock", "p": 1, "res": "ok", "txs": ["p1"]}, {"b": 2, "op": "play", "res": "ok"},
                          S("p5"), S(w), {"op": "mkblock", "p": 2, "res": "ok", "txs": [w]}, {"b": 3, "op": "play", "res": "ok"},
                          {"op": "submit", "res": "stale", "t": "p5"}, {"op": "restart", "res": "ok"}])
+    # the frozen output of t4 (thaws at FrozenAt) spent by t5 at every ledger height around the boundary, submitted to
+    # the pool and inside a peer block
+    for L in range(0, 4):
+        h = [S("t4"), {"op": "mkblock", "p": 1, "res": "ok", "txs": ["t4"]}, {"b": 2, "op": "play", "res": "ok"}]
+        for i in range(L):
+            h += [{"op": "mkblock", "p": 2 + i, "res": "ok", "txs": []}, {"b": 3 + i, "op": "play", "res": "ok"}]
+        directed.append(h + [S("t5"), {"op": "restart", "res": "ok"}])
+        directed.append(h + [{"op": "mkblock", "p": 2 + L, "res": "ok", "txs": ["t5"]}, {"b": 3 + L, "op": "play", "res": "ok"},
+                             {"d": 3 + L, "op": "walk", "prune": False, "res": "ok"}])
     groups[0][1].extend(directed)
     run.cov["directed_histories"] = len(directed)
     xc.replay_validate(run, groups)
